@@ -377,6 +377,12 @@ class NodeLib(LibBase):
     def set_self_attr(self, ex, attr, v, st, lineno):
         if attr == "env" and isinstance(v, EnvRef):
             return [Outcome("next", st)]
+        if attr == "time_last_occupancy_change" and ex.ctx.fname not in ("__init__", "_update_worker_occupancy"):
+            # C17 (the occupancy histogram adds up to T): the occupancy clock moves only inside _update_worker_occupancy,
+            # which charges the interval it skips to the bin of the current occupancy; a write anywhere else would let
+            # time pass uncharged
+            ex.ctx.oblige("occupancy-clock-advanced-only-together-with-its-histogram@L%d" % lineno, st, [z3.BoolVal(False)],
+                          "frame", lineno, ("C17",))
         from pyvc.execute import VDict
         if isinstance(v, VDict):
             # record literal: one field per (nested) constant key that the schema knows
@@ -409,6 +415,8 @@ class NodeLib(LibBase):
         if attr not in sch and not any(k.startswith(attr + ".") for k in sch):
             if ex.ctx.fname == "__init__":
                 return [Outcome("next", st)]       # attribute outside the modelled state (bookkeeping only)
+            if isinstance(v, VObj) and v.kind == "proc":
+                return [Outcome("next", st)]       # a handle on a started process kept for later: bookkeeping only
         if isinstance(v, SList) and v.ekind == ("any",) and attr in sch:
             kind = sch[attr]
             if kind[0] == "list":
